@@ -119,6 +119,19 @@ def scenarios(rnd, tier):
                 S.append(dict(srcdir="svc", args=args, out="svc/good_moq.go", rm=rm, prior=prior, flags=[]))
             S.append(dict(srcdir="svc", args=["Good"], out="gen/mocks/out.go", rm=rm, prior=prior, flags=["-pkg", "mocks"]))
             S.append(dict(srcdir="svc", args=["Good"], out="svc/good_moq.go", rm=rm, prior=prior, flags=["-fmt", "gofmt"]))
+    # a failing run over an earlier (own) output, with and without -rm: the file must survive
+    for args in (["Good", "Nope"], ["NotIface"], ["Nope", "Good"]):
+        for prior in ("own", "ownlonger"):
+            for rm in (False, True):
+                S.append(dict(srcdir="svc", args=args, out="gen/keep/mock.go", rm=rm, prior=prior, flags=["-pkg", "keep"]))
+            S.append(dict(srcdir="svc", args=args, out="svc/good_moq.go", rm=False, prior=prior, flags=[]))
+    # -pkg naming the source package's own name, for a file written into another directory (with
+    # -skip-ensure: without it the self-check line is the F-09 class, a recorded finding)
+    for fl in (["-pkg", "svc", "-skip-ensure"], ["-pkg", "svc", "-skip-ensure", "-stub", "-with-resets"]):
+        S.append(dict(srcdir="svc", args=["Good", "Other"], out="gen/svc/mock.go", rm=False, prior="absent", flags=fl))
+    for fl in (["-pkg", "mocks"], ["-pkg", "mocks", "-skip-ensure"], ["-pkg", "svc_test"]):
+        S.append(dict(srcdir="svc", args=["Good", "Gen"], out="gen/mocks2/mock.go" if fl[1] == "mocks" else "svc/good_moq_test.go",
+                      rm=False, prior="absent", flags=fl))
     # the module with the out-of-date go.mod: success, failure, with and without -out
     for args in (["Good"], ["Nope"]):
         for out in (None, "mod2/svc2/good_moq.go", "mod2/mocks/out.go"):
@@ -215,6 +228,9 @@ def one(moq, base, s, own_cache):
             elif s["prior"] == "ownresets":
                 v["flags"] = list(s["flags"]) + ["-with-resets", "-stub"]
             r0 = run_cli(moq, root, v)
+            if r0["rc"] != 0:
+                # the scenario's own command fails: the earlier output is that of a command that worked
+                r0 = run_cli(moq, root, dict(v, args=["Good"] + (["Gen", "Other:ZOther"] if s["prior"] == "ownlonger" else [])))
             own_cache[key] = r0["stdout"] if r0["rc"] == 0 else "package svc\n"
         prime(root, s, own_cache.get(key, ""))
         # what the same command prints when no -out is given, in the same tree (the prior content in
@@ -285,6 +301,18 @@ def one(moq, base, s, own_cache):
                     if "DO NOT EDIT" not in text.splitlines()[0:1][0] if text else True:
                         verdicts["C17"] = "success, but the -out file is not a complete generated file"
                     r["file"] = text
+                    # C01 in the real destination: the package the file was written into must build
+                    # (in place, or a package named with -pkg; without -pkg a file put elsewhere is
+                    # the user's mistake, not moq's)
+                    ddir = os.path.dirname(outp)
+                    if (ddir == os.path.normpath(s["srcdir"]) or "-pkg" in s["flags"]) and not s["srcdir"].startswith("mod2"):
+                        pb = subprocess.run(["go", "build", "./" + ddir], cwd=root, env=CLIENV, capture_output=True, text=True)
+                        if pb.returncode != 0:
+                            msg = " | ".join((pb.stderr or pb.stdout).splitlines()[:4])
+                            which = ["C01"]
+                            if "-pkg" in s["flags"] and ("undefined:" in msg or "imported and not used" in msg or "import cycle" in msg):
+                                which.append("C10")
+                            verdicts["+".join(which)] = "success, but the package the file was written into does not build: " + msg[:400]
                     if ref is not None and text != ref:
                         which = ["C17"]
                         mocks_file = sorted(set(re.findall(r"^type (\w+) struct", text, re.M)))
